@@ -218,12 +218,15 @@ def main(argv):
         'violations': n_viol,
     }
     if not replay:
-        C.write_json(os.path.join(C.VERIF, 'evidence', '%s.json' % pid), ev)
+        if C.REPO == '/repo':
+            C.write_json(os.path.join(C.VERIF, 'evidence', '%s.json' % pid), ev)
+        else:   # self-test against a scratch copy of the repository: keep the real evidence
+            C.write_json(os.path.join(C.WORK, pid, 'evidence_scratch.json'), ev)
 
     # ---- 5. report
     for fid, (e, inp) in sorted(known_hit.items()):
         print('KNOWN-FINDING: property=%s %s' % (pid, e['what']))
-    rdir = os.path.join(C.VERIF, 'replays')
+    rdir = os.path.join(C.VERIF, 'replays') if C.REPO == '/repo' else os.path.join(C.WORK, pid, 'replays_scratch')
     if failing:
         i = failing[0]
         small = shrink(mod, inputs[i], 2) if not replay else inputs[i]
